@@ -232,8 +232,8 @@ impl Property for C16 {
     }
     fn cases(&self, tier: Tier) -> usize {
         match tier {
-            Tier::Quick => 30_000,
-            Tier::Thorough => 1_500_000,
+            Tier::Quick => 60_000,
+            Tier::Thorough => 2_000_000,
         }
     }
     fn tape_max(&self) -> usize {
